@@ -15,7 +15,7 @@
      - leaves: all ten integer types and BOOLEAN re-encode to the accepted
        content; Integer, Unsigned, OID, BIT STRING keep it verbatim.
      - records: for EVERY schema (tree of SEQUENCE/SET/explicitly tagged
-       records over INTEGER/BOOLEAN/NULL/OBJECT IDENTIFIER leaves, any legal
+       records over INTEGER (fixed-width and arbitrary-size)/BOOLEAN/NULL/OBJECT IDENTIFIER leaves, any legal
        tags, any nesting)
        whatever the schema's typed readers accept in DER mode - at any
        position, under any limit - is exactly the DER encoding of the value
@@ -29,13 +29,18 @@
        whatever is accepted is the DER encoding of the value returned
        (C05_optional_schema_sound_in_context, C05_optional_schema_der_canonical,
        C05_optional_schema_der_injective, C05_optional_schema_der_reencode).
-   PARTIAL: CHOICE fields, BIT STRING and string leaves are not in the schema
+     - CHOICE: whatever the reader of a CHOICE (alternatives tried in order with
+       expected-tag optional reads) accepts in DER mode is the DER encoding of
+       the alternative and value it reports, and when it reports absence it has
+       touched nothing (C05_choice_sound, C05_choice_der_canonical).
+   PARTIAL: CHOICE is a reader of its own rather than a constructor of the schema
+   datatype; BIT STRING and string leaves are not in the schema
    datatype (leaf theorems above); restricted strings and captured values by
    streams (c05.leaf, c05.lengths, records). *)
 Require Import BV.Model.Base BV.Model.SrcB BV.Model.Twos BV.Model.Int BV.Model.BitStr BV.Model.Oid.
 Require Import BV.Model.Length BV.Model.Tag BV.Model.Content BV.Model.Encode.
 Require Import BV.Proofs.SrcBP BV.Proofs.IntP BV.Proofs.IntEncP BV.Proofs.BitStrP BV.Proofs.OidP BV.Proofs.ContentP BV.Proofs.WinP
-               BV.Proofs.TotalP BV.Proofs.DeltaP BV.Proofs.GrammarP BV.Proofs.EncGrammarP BV.Proofs.TypedP BV.Proofs.SchemaP BV.Proofs.SchemaSoundP BV.Proofs.Schema2P BV.Proofs.Schema2SoundP.
+               BV.Proofs.TotalP BV.Proofs.DeltaP BV.Proofs.GrammarP BV.Proofs.EncGrammarP BV.Proofs.TypedP BV.Proofs.SchemaP BV.Proofs.SchemaSoundP BV.Proofs.Schema2P BV.Proofs.Schema2SoundP BV.Proofs.ChoiceP.
 
 Theorem C05_der_encoding_unique :
   (forall t d, GrammarP.enc Der t d -> forall d', GrammarP.enc Der t d' -> d = d') /\
@@ -173,3 +178,23 @@ Print Assumptions C05_integer_canonical.
 Print Assumptions C05_boolean_canonical.
 Print Assumptions C05_bitstring_canonical.
 Print Assumptions C05_oid_verbatim.
+
+Theorem C05_choice_sound : forall alts fuel c src o c' src',
+  Forall ok2 alts -> Forall kinds_ok2 alts -> nf src -> octets_ok (rem src) = true -> cmd c = Der ->
+  dec_choice fuel alts c src = (Ok (o, c'), src') ->
+  nf src' /\ c' = c /\
+  match o with
+  | None => src' = src
+  | Some (i, v) => exists a e d, nth_error alts i = Some a /\ enc2 a v = Some e /\ enc_write Der e = Ok d /\
+                     rem src = d ++ rem src' /\ consumed src src' (len d)
+  end.
+Proof. exact choice_sound. Qed.
+Theorem C05_choice_der_canonical : forall alts fuel c src i v c' src',
+  Forall ok2 alts -> Forall kinds_ok2 alts -> NoDup (map tag_of alts) ->
+  nf src -> octets_ok (rem src) = true -> cmd c = Der ->
+  dec_choice fuel alts c src = (Ok (Some (i, v), c'), src') ->
+  exists a e d, nth_error alts i = Some a /\ enc2 a v = Some e /\ enc_write Der e = Ok d /\
+    rem src = d ++ rem src'.
+Proof. exact choice_der_canonical. Qed.
+Print Assumptions C05_choice_sound.
+Print Assumptions C05_choice_der_canonical.
